@@ -85,6 +85,39 @@ func TestC04(t *testing.T) {
 			c.Ev.MarkExhaustive(fmt.Sprintf("every one of %d callee forms x 0..4 arguments", len(callees)))
 		})
 
+		// a value crosses a call unchanged: as an argument, as the value of ফেরত (from the body, from inside
+		// loops and arms, through two activations) and as a variable captured by a closure — for every kind of
+		// value, including the exact 64-bit integers only the bitwise operators produce
+		c.Sub("values-cross-calls-unchanged", func(s *Sub) {
+			var k int64
+			defs := bn.KwFun + " same(q) { " + bn.KwReturn + " q; }\n" +
+				bn.KwFun + " twice(q) { " + bn.KwReturn + " same(same(q)); }\n" +
+				bn.KwFun + " fromLoop(q) { " + bn.KwWhile + " (" + bn.KwTrue + ") { " + bn.KwIf + " (1) { " + bn.KwReturn + " q; } } }\n" +
+				bn.KwFun + " fromFor(q) { " + bn.KwFor + " (" + bn.KwVar + " i = 0; i < 3; i = i + 1) { " + bn.KwIf + " (i == 1) " + bn.KwReturn + " q; } }\n" +
+				bn.KwFun + " keepv(q) { " + bn.KwFun + " get() { " + bn.KwReturn + " q; } " + bn.KwReturn + " get; }\n" +
+				bn.KwFun + " second(p, q) { " + bn.KwReturn + " q; }\n" +
+				bn.KwFun + " boxed(q) { " + bn.KwReturn + " [q, {v: q}]; }\n"
+			extra := []string{"(~(1 << 62))", "(~(1 << 63))", "((1 << 53) | 1)", "(1 << 64)", "\"0\"", "\" \"", "[[1], {a: [2]}]", "{a: {b: 1}}", "[nil, " + bn.KwFalse + "]"}
+			var vals []string
+			for _, p := range c02Producers {
+				vals = append(vals, p.text)
+			}
+			vals = append(vals, extra...)
+			P := bn.KwPrint
+			for _, v := range vals {
+				k++
+				if !c.Mine(k) {
+					continue
+				}
+				src := c02Prelude + defs + bn.KwVar + " v0 = " + v + ";\n"
+				for _, call := range []string{"same(v0)", "twice(v0)", "fromLoop(v0)", "fromFor(v0)", "keepv(v0)()", "second(1, v0)", "boxed(v0)[0]", "boxed(v0)[1].v", "same(" + v + ")"} {
+					src += P + " " + call + ";\n" + P + " [" + call + "];\n" + P + " " + call + " == v0;\n"
+				}
+				c.c04Program(s, "values-cross-calls-unchanged", src, true, "value-passing")
+			}
+			c.Ev.MarkExhaustive(fmt.Sprintf("%d value producers x 9 ways of crossing a call, each printed, printed inside an array and compared with the original", len(vals)))
+		})
+
 		c.Sub("recursion", func(s *Sub) {
 			if c.Shard != 0 {
 				return
